@@ -115,11 +115,21 @@ DEFAULT_CONFIG_NEW = [
 ] + DEFAULT_CONFIG_COMMON
 
 
+# EZSPv7 uses a larger default key table (still grow-only)
+DEFAULT_CONFIG_V7 = [
+    dataclasses.replace(cfg, value=12)
+    if isinstance(cfg, RuntimeConfig)
+    and cfg.config_id == t.EzspConfigId.CONFIG_KEY_TABLE_SIZE
+    else cfg
+    for cfg in DEFAULT_CONFIG_NEW
+]
+
+
 DEFAULT_CONFIG = {
     4: DEFAULT_CONFIG_LEGACY,
     5: DEFAULT_CONFIG_LEGACY,
     6: DEFAULT_CONFIG_LEGACY,
-    7: DEFAULT_CONFIG_NEW,
+    7: DEFAULT_CONFIG_V7,
     8: DEFAULT_CONFIG_NEW,
     9: DEFAULT_CONFIG_NEW,
     10: DEFAULT_CONFIG_NEW,
